@@ -11,8 +11,11 @@ func getProfile(name string, seed int64) *Profile {
 		p.Indexes = false
 	case "reads": // C01: reads interleaved with writes, indexes created before / between / after
 		p.Ops = 40
-		p.W = weights(map[string]int{"FindAll": 30, "ForEach": 6, "FindById": 6, "Derived": 4, "DropCollection": 0})
+		p.W = weights(map[string]int{"FindAll": 30, "ForEach": 6, "FindById": 6, "Derived": 4, "DropCollection": 2})
 		p.Invalid = 0.05
+		// several collections whose names are prefixes of each other, some of them dropped on the way
+		p.Colls = 3
+		p.Names = []string{"a", "ab", "abc", "", "tod", "todos", "a b"}
 	case "sort": // C08
 		p.SortHeavy = true
 		p.Ops = 40
@@ -116,7 +119,14 @@ func getProfile(name string, seed int64) *Profile {
 		p.SortHeavy = true
 		p.Invalid = 0.02
 		p.IdxPool = []string{"t", "t", "t", "x"}
-		p.TimeHeavy = true
+		p.Aim = "t"
+		p.W = weights(map[string]int{"FindAll": 24, "Derived": 8, "ForEach": 4, "DropCollection": 0, "Insert": 16})
+	case "strkeys": // strings with the bytes a key encoding must escape (0x00, 0xff, 0x01 after them) in indexed fields
+		p.Colls = 1
+		p.SortHeavy = true
+		p.Invalid = 0.02
+		p.IdxPool = []string{"s", "s", "s", "xy"}
+		p.Aim = "s"
 		p.W = weights(map[string]int{"FindAll": 24, "Derived": 8, "ForEach": 4, "DropCollection": 0, "Insert": 16})
 	case "floats":
 		p.NumTable = "floats"
